@@ -413,6 +413,10 @@ MUTANTS.extend(_R5_W3)
 from mutants_r6_w3 import E as _R6_W3  # noqa: E402
 
 MUTANTS.extend(_R6_W3)
+# round 7 (worker W3): refusals that belong to an evaluated slice
+from mutants_r7_w3 import E as _R7_W3  # noqa: E402
+
+MUTANTS.extend(_R7_W3)
 # round 4 (worker W1): classes added to the evaluated rules of C01, C02, C12, C13, C16
 from mutants_r4_w1 import E as _R4_W1  # noqa: E402
 
